@@ -21,7 +21,9 @@ def cat_values():
             cat.Box('f', y, x), f.dagger().dagger(),
             # sums however they were built (tuple / list of terms), bubbles with default and explicit types
             cat.Sum((f, h)), f.bubble(), h.bubble(), cat.Box('f', x, y).bubble(),
-            f.bubble(dom=y, cod=x), (f >> g).bubble()]
+            f.bubble(dom=y, cod=x), (f >> g).bubble(),
+            # bubbles that differ in one declared type only
+            f.bubble(dom=y, cod=z), f.bubble(dom=z, cod=x), f.bubble(dom=y, cod=y), f.bubble(dom=x, cod=z)]
     ns = {'Ob': cat.Ob, 'Box': cat.Box, 'Arrow': cat.Arrow, 'Id': cat.Id, 'Sum': cat.Sum, 'Bubble': cat.Bubble}
     return vals, ns
 
@@ -39,7 +41,8 @@ def monoidal_values():
             # layers are boxes of the layer view: equal exactly when left, box and right are
             (Id(x) @ f).layers.boxes[0], (Id(x) @ Box('g', x, y @ y)).layers.boxes[0], (f @ Id(x)).layers.boxes[0],
             (Id(x) @ f).layers.boxes[0], Box('f', x, y @ y, data=0).bubble(), f.bubble(dom=x @ x, cod=y), (f >> g @ g).bubble(),
-            f.bubble() >> g @ g] + D[:40]
+            f.bubble() >> g @ g, f.bubble(dom=x @ x, cod=y @ y), f.bubble(dom=x, cod=y), f.bubble(dom=x, cod=y @ y @ x),
+            f.bubble(dom=x @ x, cod=y @ y) >> g @ g, f.bubble(dom=x @ x, cod=y) >> g] + D[:40]
     from discopy.monoidal import Bubble
     ns = {'Ty': Ty, 'Box': Box, 'Id': Id, 'Diagram': Diagram, 'Swap': Swap, 'Sum': Sum, 'PRO': PRO, 'Ob': cat.Ob,
           'Bubble': Bubble, 'Layer': monoidal.Layer}
